@@ -766,6 +766,37 @@ func R41() Rule {
 				}
 			}
 			walk(fn, nil, 0)
+			// … and the locked object is not read back after the section was left: a handler that mutates
+			// (bucket, name) under its lock and then asks the store about the same object outside the lock
+			// describes whatever another request has made of it in the meantime
+			mutates := false
+			var chk func(f *ssa.Function, depth int)
+			chk = func(f *ssa.Function, depth int) {
+				for _, ci := range core.AllCalls(f) {
+					if isStoreCall(ci, "Add", "UpdateMeta", "Delete", "Copy") {
+						mutates = true
+					}
+					if depth < 3 && ci.Static != nil && ci.Static.Blocks != nil && core.PkgPathOf(ci.Static) == core.PkgGcsemu && ci.Static.Parent() == nil {
+						chk(ci.Static, depth+1)
+					}
+				}
+			}
+			chk(fn, 0)
+			if mutates && sec.runCall != nil {
+				par := sec.runCall.Parent()
+				j := 0
+				for _, ci := range core.AllCalls(par) {
+					if !isStoreCall(ci, "GetMeta", "Get") || !core.InstrReaches(sec.runCall, ci.Instr) {
+						continue
+					}
+					ab, an := substKey(ci.Common.Args[1], nil, 0), substKey(ci.Common.Args[2], nil, 0)
+					if ab != kb || an != kn {
+						continue
+					}
+					j++
+					c.Bad("R41", fmt.Sprintf("%s/Store.%s#%d/read-back-outside-the-lock", core.FuncName(par), ci.Method.Name(), j), ci.Instr.Pos(), "the object (%s, %s) is mutated under its lock and then read again after the lock was given up: the response can describe another request's object (or report 404 for a successful write)", kb, kn)
+				}
+			}
 		}
 		if n < 3 {
 			c.Unknown("R41", "floor/calls", token.NoPos, "only %d store calls found inside critical sections", n)
